@@ -22,8 +22,16 @@ type Zone map[string][]string
 var (
 	mu      sync.Mutex
 	zone    Zone
-	queries = map[string]int{} // "name/type" -> count
+	queries = map[string]int{}  // "name/type" -> count
+	failing = map[string]bool{} // names answered with SERVFAIL for the time being
 )
+
+// SetFailing makes the server answer queries for name with SERVFAIL (a transient failure) or normally again.
+func SetFailing(name string, on bool) {
+	mu.Lock()
+	failing[strings.ToLower(name)] = on
+	mu.Unlock()
+}
 
 // Install makes net.DefaultResolver answer from z.
 func Install(z Zone) {
@@ -94,9 +102,14 @@ func serve(c net.Conn) {
 		case dnsmessage.TypeAAAA:
 			queries[name+"/AAAA"]++
 		}
+		fail := failing[name]
 		mu.Unlock()
 		if !ok {
 			resp.Header.RCode = dnsmessage.RCodeNameError
+		}
+		if fail {
+			resp.Header.RCode = dnsmessage.RCodeServerFailure
+			addrs = nil
 		}
 		for _, a := range addrs {
 			ip := net.ParseIP(a)
